@@ -220,7 +220,11 @@ def run_item(item, tier):
         res["evals"] += 1
         res["transitions"] += 1
         want = ref_selection(rows0, task, latest)
-        r = hist.run(root, argv, cwd=rel_cwd or ".", clock=driver.Clock(t + 1))
+        # every fourth variant is archived from a checkout whose HEAD is NOT a descendant of the commits the versions were recorded
+        # at (the user switched to another branch): what gets archived does not depend on the current commit
+        sibling = explore.git_from_json({"commits": {"a" * 40: [], "b" * 40: ["a" * 40], "c" * 40: []}, "head": "c" * 40, "is_repo": True,
+                                         "dirty": False}) if (len(str(task)) + 2 * int(latest)) % 4 == 1 else None
+        r = hist.run(root, argv, cwd=rel_cwd or ".", clock=driver.Clock(t + 1), git=sibling)
         res["sigs"].add(explore.sig([item["history"], task, latest, stale]))
         if os.path.exists(os.path.join(root, "cond-out", "version_index_archive.sqlite")):
             if not (stale and not want):
